@@ -573,7 +573,7 @@ func ruleNilUse(c *Ctx, id string) {
 		}
 		seen[key] = true
 		n++
-		why, ok := nilUseJustified[key]
+		why, ok := byFunc(nilUseJustified, key)
 		R.Check(ok, id, key+"|possibly nil", P.Pos(e.Pos), "no use of an inode that may be nil", why, "the inode acquired at "+e.Extra["src"]+" may be nil here (entry "+e.Entry+"): a nil dereference kills the server")
 	}
 	if n == 0 {
